@@ -1,6 +1,6 @@
 (* correspondence glue for C08: the Go hash trees and verifiers against the reference construction,
    run with the executable SHA-256 *)
-From V Require Export Base.Hex Merkle.Sha256 Merkle.RefPath.
+From V Require Export Base.Hex Merkle.Sha256 Merkle.RefPath Merkle.Main.
 
 Definition Hs := sha256.
 Definition mroot (l : list bytes) : bytes := mth Hs l.
@@ -32,7 +32,10 @@ Definition case_ok (c : case) : bool :=
   match c with
   | CSha i o => bytes_eqb (Hs i) o
   | CAht p roots => lbytes_eqb (prefixes_roots (length p) p 1) roots
-  | CInclProof p i j proof => lbytes_eqb (ref_inclusion_proof Hs p i j) proof
+  | CInclProof p i j proof =>
+      (* the Go prover returns the RFC 6962 audit path AND the honest path of the completeness theorem *)
+      lbytes_eqb (ref_inclusion_proof Hs p i j) proof &&
+      lbytes_eqb (honest_inclusion_proof Hs (takeN j p) i) proof
   | CVerIncl t i j leaf root v => Bool.eqb (verify_inclusion Hs t i j leaf root) v
   | CVerLast t i leaf root v => Bool.eqb (verify_last_inclusion Hs t i leaf root) v
   | CVerCons t i j ir jr v => res_eqb Bool.eqb (verify_consistency Hs t i j ir jr) v
